@@ -374,7 +374,9 @@ class Body:
 
     def expr_of_call(self, t, depth=30):
         args = [self.expr_of_operand(a, depth) for a in t["args"]]
-        return Call(t, args)
+        c = Call(t, args)
+        c.owner = self
+        return c
 
     def expr_of_rvalue(self, rv, depth=30):
         k = rv["k"]
